@@ -35,11 +35,27 @@ def setMtimeAt (fs : FS) (p : Path) (t : Time) : FS :=
   | some nd => fs.set p (nd.setMtime (some t))
   | none => fs
 
+/-- the node a regular file of the source arrives as: the file itself, or -- when it is larger than the
+receiver's file size limit -- the bytes that fitted, with the clock's time -/
+def recvFileNode (o : Opts) (m : Nat) (tm : Option Time) (d : Str) : Node :=
+  if o.fitsB d.length then recvFile o m tm d
+  else .file (maskOff (m &&& RCP_MODEMASK) o.eumask) none (o.writable d)
+
+mutual
+/-- the number of files in a tree that exceed the receiver's file size limit -/
+def faults (o : Opts) : Tree → Nat
+  | .file _ _ _ d => if o.fitsB d.length then 0 else 1
+  | .dir _ _ _ kids => faultsKids o kids
+def faultsKids (o : Opts) : List (Str × Tree) → Nat
+  | [] => 0
+  | (_, k) :: r => faults o k + faultsKids o r
+end
+
 mutual
 /-- the file system after the receiver has taken in one tree under the name `n` in directory `q` -/
 def recvTree (o : Opts) (ss : Bool) (fs : FS) (q : Path) (n : Str) : Tree → FS
   | .file m t _ d =>
-    (fs.bumpDir q).set (q ++ [n]) (recvFile o m (if o.preserve then some (sentTime ss t) else none) d)
+    (fs.bumpDir q).set (q ++ [n]) (recvFileNode o m (if o.preserve then some (sentTime ss t) else none) d)
   | .dir m t _ kids =>
     if o.preserve then
       setMtimeAt (recvKids o ss ((fs.bumpDir q).set (q ++ [n]) (recvDirNode o fs q n m)) (q ++ [n]) kids)
@@ -116,12 +132,60 @@ structure AtDir (o : Opts) (st : St) (f : Frame) (rest : List Frame) (q : Path) 
   ver : VerifyOk o st.fs
   us : usecOk f.atm = true ∧ usecOk f.mt = true
 
+/-- a `T` record can only be pending in a level when the copy is made with -p (then every entry
+brings its own `T` record, which replaces it) -/
+def Pend (o : Opts) (f : Frame) : Prop := f.setimes = true → o.preserve = true
+
+/-- replies that are acknowledgements except for exactly `k` "can't truncate" error records -/
+def Rs (rs : List Reply) (k : Nat) : Prop :=
+  (∀ r ∈ rs, r = Reply.ack ∨ r = Reply.err .trunc) ∧ rs.count (Reply.err .trunc) = k
+
+theorem Rs.nil : Rs [] 0 := ⟨by simp, rfl⟩
+
+theorem Rs.ack {rs : List Reply} {k : Nat} (h : Rs rs k) : Rs (.ack :: rs) k := by
+  refine ⟨?_, ?_⟩
+  · intro r hr
+    simp only [List.mem_cons] at hr
+    rcases hr with rfl | hr
+    · exact Or.inl rfl
+    · exact h.1 r hr
+  · rw [List.count_cons]
+    simp [h.2]
+
+theorem Rs.trunc {rs : List Reply} {k : Nat} (h : Rs rs k) : Rs (.err .trunc :: rs) (k + 1) := by
+  refine ⟨?_, ?_⟩
+  · intro r hr
+    simp only [List.mem_cons] at hr
+    rcases hr with rfl | hr
+    · exact Or.inr rfl
+    · exact h.1 r hr
+  · rw [List.count_cons]
+    simp [h.2]
+
+theorem Rs.append {a b : List Reply} {k1 k2 : Nat} (h1 : Rs a k1) (h2 : Rs b k2) : Rs (a ++ b) (k1 + k2) := by
+  refine ⟨?_, ?_⟩
+  · intro r hr
+    simp only [List.mem_append] at hr
+    rcases hr with hr | hr
+    · exact h1.1 r hr
+    · exact h2.1 r hr
+  · rw [List.count_append, h1.2, h2.2]
+
+theorem Rs.all_ack {rs : List Reply} (h : Rs rs 0) : ∀ r ∈ rs, r = Reply.ack := by
+  intro r hr
+  rcases h.1 r hr with e | e
+  · exact e
+  · exfalso
+    have : 0 < rs.count (Reply.err .trunc) := List.count_pos_iff.2 (e ▸ hr)
+    rw [h.2] at this
+    omega
+
 /-- what feeding a tree (or a list of trees) achieves -/
-structure Fed (o : Opts) (st st' : St) (f : Frame) (rest : List Frame) (q : Path) (fs' : FS) : Prop where
-  frame : ∃ f', AtDir o st' f' rest q ∧ f'.setimes = false ∧ f'.targ = f.targ
+structure Fed (o : Opts) (st st' : St) (f : Frame) (rest : List Frame) (q : Path) (fs' : FS) (k : Nat) : Prop where
+  frame : ∃ f', AtDir o st' f' rest q ∧ Pend o f' ∧ f'.targ = f.targ
   fs : st'.fs = fs'
   mono : DirMono st.fs st'.fs
-  out : ∃ acks, st'.out = acks ++ st.out ∧ ∀ r ∈ acks, r = Reply.ack
+  out : ∃ rs, st'.out = rs ++ st.out ∧ Rs rs k
 
 theorem usecOk_zero (s : Int) : usecOk ⟨s, 0⟩ = true := by simp [usecOk]
 
@@ -149,40 +213,71 @@ theorem isDir_node {fs : FS} {p : Path} (h : fs.isDir p = true) : ∃ m t, fs p 
 
 variable {o : Opts}
 
-mutual
-/-- **Round trip of one tree.** -/
-theorem feed_tree (hc : CntOk o) (hnf : o.fsize = none) (ss : Bool) (t : Tree) (n : Str) (budget : Nat) (st : St) (f : Frame) (rest : List Frame)
-    (q : Path) (h : AtDir o st f rest q) (hns : f.setimes = false) (hb : f.targ.length + budget < PCP_PATH_MAX)
-    (hg : GoodTree budget n t) (hfresh : FreshBelow st.fs (q ++ [n])) :
-    Fed o st ((treeBytes o.preserve ss n t).foldl (step o) st) f rest q (recvTree o ss st.fs q n t) := by
-  cases t with
-  | file m t a d =>
-    simp only [GoodTree] at hg
-    obtain ⟨hn, hnb, ht, ha, hd⟩ := hg
-    have hfr : st.fs (q ++ [n]) = none := hfresh _ (List.prefix_refl _)
-    simp only [treeBytes, recvTree]
-    by_cases hp : o.preserve = true
-    · -- `T` record, then the file
-      simp only [hp, ↓reduceIte, timesRecord]
-      rw [List.foldl_append, feed_T h.phase h.stack (t / USEC) (sentUsec ss t) (a / USEC) (sentUsec ss a) (sent_lt ss ht).1 (sent_lt ss ht).2 (sent_lt ss ha).1 (sent_lt ss ha).2]
-      have hC := feed_C hc hnf
+/-- **One file of a tree**, with or without -p, fitting the receiver's file size limit or not. -/
+theorem feed_file (hc : CntOk o) (ss : Bool) (m t a : Nat) (d : Str) (n : Str) (budget : Nat) (st : St) (f : Frame)
+    (rest : List Frame) (q : Path) (h : AtDir o st f rest q) (hns : Pend o f)
+    (hb : f.targ.length + budget < PCP_PATH_MAX) (hg : GoodTree budget n (.file m t a d))
+    (hfresh : FreshBelow st.fs (q ++ [n])) :
+    Fed o st ((treeBytes o.preserve ss n (.file m t a d)).foldl (step o) st) f rest q
+      (recvTree o ss st.fs q n (.file m t a d)) (faults o (.file m t a d)) := by
+  simp only [GoodTree] at hg
+  obtain ⟨hn, hnb, ht, ha, hd⟩ := hg
+  have hfr : st.fs (q ++ [n]) = none := hfresh _ (List.prefix_refl _)
+  simp only [treeBytes, recvTree, faults, recvFileNode]
+  have hmono : ∀ nd : Node, DirMono st.fs ((st.fs.bumpDir q).set (q ++ [n]) nd) := fun nd =>
+    (dirMono_bumpDir _ _).trans (dirMono_set_fresh _ (bumpDir_none _ _ _ hfr))
+  by_cases hp : o.preserve = true
+  · -- `T` record, then the file
+    simp only [hp, ↓reduceIte, timesRecord]
+    rw [List.foldl_append, feed_T h.phase h.stack (t / USEC) (sentUsec ss t) (a / USEC) (sentUsec ss a)
+      (sent_lt ss ht).1 (sent_lt ss ht).2 (sent_lt ss ha).1 (sent_lt ss ha).2]
+    by_cases hfit : o.fitsB d.length = true
+    · have hC := feed_C hc
         (st := { st with out := .ack :: st.out,
                          stack := { f with setimes := true, mt := sentTime ss t, atm := sentTime ss a } :: rest, phase := .start })
         (f := { f with setimes := true, mt := sentTime ss t, atm := sentTime ss a }) (rest := rest) (q := q) rfl rfl h.isdir
-        h.res h.dir hn hfr (by simp only; omega) m d hd ⟨usecOk_sent _ _, usecOk_sent _ _⟩
+        h.res h.dir hn hfr (by simp only; omega) m d hd hfit ⟨usecOk_sent _ _, usecOk_sent _ _⟩
       rw [hC]
-      have hmono : DirMono st.fs ((st.fs.bumpDir q).set (q ++ [n]) (recvFile o m (some (sentTime ss t)) d)) :=
-        (dirMono_bumpDir _ _).trans (dirMono_set_fresh _ (bumpDir_none _ _ _ hfr))
-      refine ⟨⟨_, ⟨rfl, rfl, h.isdir, resolve_mono hmono h.res, hmono _ h.dir, verifyOk_mono hmono h.ver,
-        ⟨usecOk_sent _ _, usecOk_sent _ _⟩⟩, rfl, rfl⟩, rfl, hmono, ⟨[.ack, .ack, .ack], rfl, by simp⟩⟩
-    · have hp' : o.preserve = false := by simpa using hp
-      simp only [hp', Bool.false_eq_true, ↓reduceIte, List.nil_append]
-      rw [feed_C hc hnf h.phase h.stack h.isdir h.res h.dir hn hfr (by omega) m d hd h.us]
-      simp only [hns, Bool.false_eq_true, ↓reduceIte]
-      have hmono : DirMono st.fs ((st.fs.bumpDir q).set (q ++ [n]) (recvFile o m none d)) :=
-        (dirMono_bumpDir _ _).trans (dirMono_set_fresh _ (bumpDir_none _ _ _ hfr))
-      refine ⟨⟨_, ⟨rfl, rfl, h.isdir, resolve_mono hmono h.res, hmono _ h.dir, verifyOk_mono hmono h.ver,
-        h.us⟩, rfl, rfl⟩, rfl, hmono, ⟨[.ack, .ack], rfl, by simp⟩⟩
+      simp only [hfit, ↓reduceIte]
+      refine ⟨⟨_, ⟨rfl, rfl, h.isdir, resolve_mono (hmono _) h.res, hmono _ _ h.dir, verifyOk_mono (hmono _) h.ver,
+        ⟨usecOk_sent _ _, usecOk_sent _ _⟩⟩, (fun e => by cases e), rfl⟩, rfl, hmono _, ⟨[.ack, .ack, .ack], rfl,
+        Rs.nil.ack.ack.ack⟩⟩
+    · have hfit' : o.fitsB d.length = false := by simpa using hfit
+      have hC := feed_C_toobig hc
+        (st := { st with out := .ack :: st.out,
+                         stack := { f with setimes := true, mt := sentTime ss t, atm := sentTime ss a } :: rest, phase := .start })
+        (f := { f with setimes := true, mt := sentTime ss t, atm := sentTime ss a }) (rest := rest) (q := q) rfl rfl h.isdir
+        h.res h.dir hn hfr (by simp only; omega) m d hd hfit' ⟨usecOk_sent _ _, usecOk_sent _ _⟩
+      rw [hC]
+      simp only [hfit', Bool.false_eq_true, ↓reduceIte]
+      refine ⟨⟨_, ⟨rfl, rfl, h.isdir, resolve_mono (hmono _) h.res, hmono _ _ h.dir, verifyOk_mono (hmono _) h.ver,
+        ⟨usecOk_sent _ _, usecOk_sent _ _⟩⟩, fun _ => hp, rfl⟩, rfl, hmono _, ⟨[.err .trunc, .ack, .ack], rfl,
+        Rs.nil.ack.ack.trunc⟩⟩
+  · have hp' : o.preserve = false := by simpa using hp
+    have hns' : f.setimes = false := by
+      cases hfs : f.setimes with
+      | false => rfl
+      | true => rw [hns hfs] at hp'; cases hp'
+    simp only [hp', Bool.false_eq_true, ↓reduceIte, List.nil_append]
+    by_cases hfit : o.fitsB d.length = true
+    · rw [feed_C hc h.phase h.stack h.isdir h.res h.dir hn hfr (by omega) m d hd hfit h.us]
+      simp only [hns', Bool.false_eq_true, ↓reduceIte, hfit]
+      refine ⟨⟨_, ⟨rfl, rfl, h.isdir, resolve_mono (hmono _) h.res, hmono _ _ h.dir, verifyOk_mono (hmono _) h.ver,
+        h.us⟩, (fun e => by cases e), rfl⟩, rfl, hmono _, ⟨[.ack, .ack], rfl, Rs.nil.ack.ack⟩⟩
+    · have hfit' : o.fitsB d.length = false := by simpa using hfit
+      rw [feed_C_toobig hc h.phase h.stack h.isdir h.res h.dir hn hfr (by omega) m d hd hfit' h.us]
+      simp only [hfit', Bool.false_eq_true, ↓reduceIte]
+      refine ⟨⟨f, ⟨rfl, h.stack, h.isdir, resolve_mono (hmono _) h.res, hmono _ _ h.dir, verifyOk_mono (hmono _) h.ver,
+        h.us⟩, hns, rfl⟩, rfl, hmono _, ⟨[.err .trunc, .ack], rfl, Rs.nil.ack.trunc⟩⟩
+
+mutual
+/-- **Round trip of one tree.** -/
+theorem feed_tree (hc : CntOk o) (ss : Bool) (t : Tree) (n : Str) (budget : Nat) (st : St) (f : Frame) (rest : List Frame)
+    (q : Path) (h : AtDir o st f rest q) (hns : Pend o f) (hb : f.targ.length + budget < PCP_PATH_MAX)
+    (hg : GoodTree budget n t) (hfresh : FreshBelow st.fs (q ++ [n])) :
+    Fed o st ((treeBytes o.preserve ss n t).foldl (step o) st) f rest q (recvTree o ss st.fs q n t) (faults o t) := by
+  cases t with
+  | file m t a d => exact feed_file hc ss m t a d n budget st f rest q h hns hb hg hfresh
   | dir m t a kids =>
     simp only [GoodTree] at hg
     obtain ⟨hn, hnb, ht, ha, hk⟩ := hg
@@ -194,15 +289,19 @@ theorem feed_tree (hc : CntOk o) (hnf : o.fsize = none) (ss : Bool) (t : Tree) (
           f1.targisdir = true ∧ (usecOk f1.atm = true ∧ usecOk f1.mt = true) ∧
           (f1.setimes = o.preserve ∧ (o.preserve = true → f1.mt = sentTime ss t)) ∧ st1.fs = st.fs ∧
           st1.phase = .start ∧ st1.stack = f1 :: rest ∧
-          ∃ acks, st1.out = acks ++ st.out ∧ ∀ r ∈ acks, r = Reply.ack := by
+          ∃ acks, st1.out = acks ++ st.out ∧ Rs acks 0 := by
       by_cases hp : o.preserve = true
       · simp only [hp, ↓reduceIte, timesRecord]
         rw [feed_T h.phase h.stack (t / USEC) (sentUsec ss t) (a / USEC) (sentUsec ss a) (sent_lt ss ht).1 (sent_lt ss ht).2 (sent_lt ss ha).1 (sent_lt ss ha).2]
         exact ⟨_, { f with setimes := true, mt := sentTime ss t, atm := sentTime ss a }, rfl, rfl, h.isdir,
-          ⟨usecOk_sent _ _, usecOk_sent _ _⟩, ⟨rfl, fun _ => rfl⟩, rfl, rfl, rfl, [.ack], rfl, by simp⟩
+          ⟨usecOk_sent _ _, usecOk_sent _ _⟩, ⟨rfl, fun _ => rfl⟩, rfl, rfl, rfl, [.ack], rfl, Rs.nil.ack⟩
       · have hp' : o.preserve = false := by simpa using hp
         simp only [hp', Bool.false_eq_true, ↓reduceIte, List.foldl_nil]
-        exact ⟨_, f, rfl, rfl, h.isdir, h.us, ⟨hns, fun e => by cases e⟩, rfl, h.phase, h.stack, [], rfl, by simp⟩
+        have hns' : f.setimes = false := by
+          cases hfs : f.setimes with
+          | false => rfl
+          | true => rw [hns hfs] at hp'; cases hp'
+        exact ⟨_, f, rfl, rfl, h.isdir, h.us, ⟨hns', fun e => by cases e⟩, rfl, h.phase, h.stack, [], rfl, Rs.nil⟩
     obtain ⟨acks1, hacks1, hacks1a⟩ := hst1out
     -- the `D` record
     have hD := feed_D (o := o) (st := st1) (f := f1) (rest := rest) (q := q) hst1ph hst1st hf1d
@@ -227,7 +326,8 @@ theorem feed_tree (hc : CntOk o) (hnf : o.fsize = none) (ss : Bool) (t : Tree) (
       have hx1 : (q ++ [n]) <+: x := (List.prefix_append _ _).trans hx
       rw [hfs2, set_other _ _ _ _ (prefix_snoc_ne hx), bumpDir_other _ _ _ (prefix_snoc_ne hx1)]
       exact hfresh x hx1
-    have hK := feed_kids hc hnf ss kids (budget - (n.length + 1)) st2 chf (f1 :: rest) (q ++ [n]) hat2 rfl
+    have hK := feed_kids hc ss kids (budget - (n.length + 1)) st2 chf (f1 :: rest) (q ++ [n]) hat2
+      (fun e => by cases e)
       (by
         show (joinName f.targ n).length + _ < _
         rw [joinName_cons_length _ _ htne]; omega) hk hkfresh
@@ -247,7 +347,8 @@ theorem feed_tree (hc : CntOk o) (hnf : o.fsize = none) (ss : Bool) (t : Tree) (
       · exact dirMono_set_same _ hnode3 rfl
       · exact DirMono.refl _
     have hmonoAll := (hmono2.trans hmono3).trans hmonoE
-    refine ⟨⟨_, ⟨rfl, rfl, hf1d, ?_, hmonoAll _ h.dir, verifyOk_mono hmonoAll h.ver, hf1u⟩, rfl, hf1t⟩, ?_, hmonoAll, ?_⟩
+    refine ⟨⟨_, ⟨rfl, rfl, hf1d, ?_, hmonoAll _ h.dir, verifyOk_mono hmonoAll h.ver, hf1u⟩, (fun e => by cases e), hf1t⟩,
+      ?_, hmonoAll, ?_⟩
     · show resolve _ o.cwd f1.targ = some q
       rw [hf1t]; exact resolve_mono hmonoAll h.res
     · -- the file system is `recvTree`
@@ -267,29 +368,25 @@ theorem feed_tree (hc : CntOk o) (hnf : o.fsize = none) (ss : Bool) (t : Tree) (
       · show Reply.ack :: st3.out = _
         rw [hacks3, hD]
         simp only [hacks1, List.cons_append, List.append_assoc]
-      · intro r hr
-        simp only [List.mem_cons, List.mem_append] at hr
-        rcases hr with rfl | hr | rfl | hr
-        · rfl
-        · exact hacks3a r hr
-        · rfl
-        · exact hacks1a r hr
+      · have := (hacks3a.append hacks1a.ack).ack
+        simpa [faults] using this
 /-- **Round trip of a list of sibling trees.** -/
-theorem feed_kids (hc : CntOk o) (hnf : o.fsize = none) (ss : Bool) (kids : List (Str × Tree)) (budget : Nat) (st : St) (f : Frame)
-    (rest : List Frame) (q : Path) (h : AtDir o st f rest q) (hns : f.setimes = false)
+theorem feed_kids (hc : CntOk o) (ss : Bool) (kids : List (Str × Tree)) (budget : Nat) (st : St) (f : Frame)
+    (rest : List Frame) (q : Path) (h : AtDir o st f rest q) (hns : Pend o f)
     (hb : f.targ.length + budget < PCP_PATH_MAX) (hg : GoodKids budget kids)
     (hfresh : ∀ n k, (n, k) ∈ kids → FreshBelow st.fs (q ++ [n])) :
-    Fed o st ((kidsBytes o.preserve ss kids).foldl (step o) st) f rest q (recvKids o ss st.fs q kids) := by
+    Fed o st ((kidsBytes o.preserve ss kids).foldl (step o) st) f rest q (recvKids o ss st.fs q kids)
+      (faultsKids o kids) := by
   cases kids with
   | nil =>
     simp only [kidsBytes, List.foldl_nil, recvKids]
-    exact ⟨⟨f, h, hns, rfl⟩, rfl, DirMono.refl _, [], rfl, by simp⟩
+    exact ⟨⟨f, h, hns, rfl⟩, rfl, DirMono.refl _, [], rfl, Rs.nil⟩
   | cons nk r =>
     obtain ⟨n, k⟩ := nk
     simp only [GoodKids] at hg
     obtain ⟨hgk, hdist, hgr⟩ := hg
     simp only [kidsBytes, List.foldl_append, recvKids]
-    have h1 := feed_tree hc hnf ss k n budget st f rest q h hns hb hgk (hfresh n k List.mem_cons_self)
+    have h1 := feed_tree hc ss k n budget st f rest q h hns hb hgk (hfresh n k List.mem_cons_self)
     generalize (treeBytes o.preserve ss n k).foldl (step o) st = st1 at h1
     obtain ⟨⟨f1, hat1, hf1s, hf1t⟩, hfs1, hmono1, acks1, hacks1, hacks1a⟩ := h1
     have hfresh1 : ∀ n' k', (n', k') ∈ r → FreshBelow st1.fs (q ++ [n']) := by
@@ -304,16 +401,13 @@ theorem feed_kids (hc : CntOk o) (hnf : o.fsize = none) (ss : Bool) (kids : List
         have := List.append_cancel_left e2
         simp at this
         exact hne this
-    have h2 := feed_kids hc hnf ss r budget st1 f1 rest q hat1 hf1s (by rw [hf1t]; exact hb) hgr hfresh1
+    have h2 := feed_kids hc ss r budget st1 f1 rest q hat1 hf1s (by rw [hf1t]; exact hb) hgr hfresh1
     generalize (kidsBytes o.preserve ss r).foldl (step o) st1 = st2 at h2
     obtain ⟨⟨f2, hat2, hf2s, hf2t⟩, hfs2, hmono2, acks2, hacks2, hacks2a⟩ := h2
     refine ⟨⟨f2, hat2, hf2s, hf2t.trans hf1t⟩, by rw [hfs2, hfs1], hmono1.trans hmono2, acks2 ++ acks1, ?_, ?_⟩
     · rw [hacks2, hacks1, List.append_assoc]
-    · intro x hx
-      simp only [List.mem_append] at hx
-      rcases hx with hx | hx
-      · exact hacks2a x hx
-      · exact hacks1a x hx
+    · have := hacks2a.append hacks1a
+      simpa [faultsKids, Nat.add_comm] using this
 end
 
 end PdshVerif.Pcp
